@@ -23,7 +23,12 @@ R2 availability of file data (`FileToken.is_available` / `_is_path_available`): 
    temporaries: `tmp = all(...); return tmp`, flow-sensitive reaching definitions).  The aggregate over the
    locations may live in a helper coroutine of the module (one level): the helper must be awaited, iterate the
    parameter bound to the data locations and return the builtin `any(...)` on every return; its call is then the
-   tested value in `is_available`.
+   tested value in `is_available`.  The look-up may live in a helper of the module too (one level): a helper whose
+   every return yields `get_data_locations(<parameter bound to the loop's path>, PRIMARY)` stands for the locations
+   (its call is what the emptiness test and the aggregate read); any other helper holding the look-up performs the
+   whole check of one path - the emptiness test and the aggregate (possibly in its own helper) are then decided in
+   it, every return of it must yield constant False, the aggregate itself, or True on the positive outcome of the
+   test of the aggregate (no fall-through), and its awaited call is the tested value in `is_available`.
 R3 steps selected for re-execution (`GraphMapper.get_step_ids`): ports of the failed step's own
    outputs are excluded (`not in output_port_names`, and the caller passes
    `failed_step.output_ports.values()`); steps having an input port outside the mapped ports are
@@ -200,19 +205,20 @@ def _fixed_param(h, pn) -> bool:
     return bool(ds) and all(d.kind == "param" for d in ds)
 
 
-def _extracted_sites(p, f, targets):
+def _extracted_sites(p, f, targets, pred=None):
     """`extract method / function`: [(call in f, helper, call in the helper, binding parameter -> argument)] for every
     call of `f` that resolves to exactly one non-abstract function of the same module which itself calls one of
-    `targets` (one level of inlining; a call forwarding * / ** cannot be bound and is not followed)."""
+    `targets` (one level of inlining; a call forwarding * / ** cannot be bound and is not followed).  `pred`: the
+    target calls are those accepted by pred(call) instead of those resolving to `targets`."""
     out = []
     for c in f.calls():
-        if resolves_to(p, f, c, targets, attr_fallback=False):
+        if pred(c) if pred is not None else resolves_to(p, f, c, targets, attr_fallback=False):
             continue
         qs = rcall(p, f, c, fanout=False)
         h = p.functions.get(qs[0]) if len(qs) == 1 else None
         if h is None or h is f or h.is_abstract or h.module is not f.module:
             continue
-        inner = [x for x in h.calls() if resolves_to(p, h, x, targets, attr_fallback=False)]
+        inner = [x for x in h.calls() if (pred(x) if pred is not None else resolves_to(p, h, x, targets, attr_fallback=False))]
         if not inner:
             continue
         b = bind_args(h.node, c, bound=h.cls is not None)
@@ -418,49 +424,77 @@ def r2(ctx):
            message="a FileToken that is not recoverable can be reported available: its producer is never re-run although the data cannot be trusted",
            witness=g.describe(w or []))
     # (b) PRIMARY locations of each path
-    gets = [c for c in f.calls() if isinstance(c.func, ast.Attribute) and c.func.attr == "get_data_locations"]
-    ctx.require(len(gets) == 1, "C18.R2: expected one get_data_locations call in FileToken.is_available")
-    gl = gets[0]
+    # the look-up is written in is_available itself, or - `extract function` - in one helper of the module that is_available
+    # calls (one level): (call of is_available standing for it, function holding the look-up, the look-up, binding)
+    def is_lookup(c):
+        return isinstance(c.func, ast.Attribute) and c.func.attr == "get_data_locations"
+
+    look = [(c, f, c, None) for c in f.calls() if is_lookup(c)] or _extracted_sites(p, f, [], pred=is_lookup)
+    ctx.require(len(look) == 1, "C18.R2: expected one get_data_locations call in FileToken.is_available (directly or in one helper of its module)")
+    lcall, lf, gl, lb = look[0]
     b = bind_args(p.func("streamflow.core.data.DataManager.get_data_locations").node, gl) or {}
     dt = b.get("data_type")
-    prim = dt is not None and isinstance(strip(dt), ast.Attribute) and strip(dt).attr == "PRIMARY" and p.resolve_expr(f.module, strip(dt).value) == "streamflow.core.data.DataType"
-    loop = next((a for a in ancestors(gl) if isinstance(a, (ast.For, ast.AsyncFor))), None)
-    path_ok = loop is not None and isinstance(loop.target, ast.Name) and isinstance(b.get("path"), ast.Name) and b["path"].id == loop.target.id and any(
+    prim = dt is not None and isinstance(strip(dt), ast.Attribute) and strip(dt).attr == "PRIMARY" and p.resolve_expr(lf.module, strip(dt).value) == "streamflow.core.data.DataType"
+    loop = next((a for a in ancestors(lcall) if isinstance(a, (ast.For, ast.AsyncFor))), None)
+    # the examined path: the loop variable itself, or - in the helper - the parameter bound to it (never re-bound)
+    pexpr = b.get("path")
+    if lf is not f and isinstance(pexpr, ast.Name):
+        pexpr = strip(lb[pexpr.id]) if pexpr.id in lb and _fixed_param(lf, pexpr.id) else None
+    path_ok = loop is not None and isinstance(loop.target, ast.Name) and isinstance(pexpr, ast.Name) and pexpr.id == loop.target.id and any(
         isinstance(o, ast.Call) and isinstance(o.func, ast.Attribute) and o.func.attr == "get_paths" and isinstance(o.func.value, ast.Name) and o.func.value.id == "self"
         for o in [strip(x) for x in origins(f, loop.iter)])
-    ctx.ob("R2", "PRIMARY data locations are looked up for every path of the token", prim and path_ok, func=f, node=gl, instance="file:primary",
-           message=f"`{unparse(gl)}`: data_type=PRIMARY={prim}, iterates get_paths()={path_ok} - symbolic links / other paths would make lost data look available")
+    # where the per-path check (emptiness test, aggregate over the locations) lives and what denotes the locations there:
+    #   look-up written in is_available                       -> is_available, the look-up
+    #   helper whose every return yields the look-up          -> is_available, the (awaited) call of the helper
+    #   otherwise the helper performs the whole per-path check -> the helper, the look-up; its call in is_available is
+    #   the tested value
+    lrets = [r for r in lf.body_nodes() if isinstance(r, ast.Return)]
+    if lf is f:
+        cf, loc_expr = f, gl
+    elif lrets and all(r.value is not None and [strip(v) for v in returned_exprs(lf, r)] == [gl] for r in lrets):
+        cf, loc_expr = f, lcall
+    else:
+        cf, loc_expr = lf, gl
+    cg = cf.cfg
+    lvia = "" if lf is f else f" (the look-up is performed by the helper {lf.qualname}, invoked as `{unparse(lcall)[:70]}`)"
+    cvia = "" if cf is f else f" (the per-path check is performed by the helper {cf.qualname}, invoked as `{unparse(lcall)[:70]}`)"
+    l_awaited = lf is f or not lf.is_async or is_awaited(lcall)
+    if lf is not f:
+        ctx.observe(f"C18.R2: get_data_locations is called by the helper {lf.qualname}; its call `{unparse(lcall)[:70]}` in FileToken.is_available is analysed as "
+                    + ("the look-up of the locations" if cf is f else "the check of one path"))
+    ctx.ob("R2", "PRIMARY data locations are looked up for every path of the token", prim and path_ok and l_awaited, func=f, node=lcall, instance="file:primary",
+           message=f"`{unparse(gl)}`: data_type=PRIMARY={prim}, iterates get_paths()={path_ok} - symbolic links / other paths would make lost data look available{lvia}")
 
     def is_locs(e):
         e0 = e
         if isinstance(e0, ast.NamedExpr):
-            return strip(e0.value) is gl
-        if strip(e0) is gl:
+            return strip(e0.value) is loc_expr
+        if strip(e0) is loc_expr:
             return True
         if isinstance(e0, ast.Name):
-            return any(d.value is not None and strip(d.value) is gl for d in defs_of(f, e0.id))
+            return any(d.value is not None and strip(d.value) is loc_expr for d in defs_of(cf, e0.id))
         return False
 
-    ets = [(n, k) for n in g.nodes.values() if n.kind == "test" for k, tr in (("t", True), ("f", False)) if implies_empty(p, f, n.ast, tr, is_locs)]
+    ets = [(n, k) for n in cg.nodes.values() if n.kind == "test" for k, tr in (("t", True), ("f", False)) if implies_empty(p, cf, n.ast, tr, is_locs)]
     ctx.require(len(ets) >= 1, "C18.R2: no emptiness test of the data locations found")
     for n, k in ets:
-        w = _only_false(g, succ(g, n.id, k))
+        w = _only_false(cg, succ(cg, n.id, k))
         ctx.ob("R2", "a path without any PRIMARY location makes the token unavailable", w is None, func=f, node=n.ast, instance="file:no-location",
-               message="a path with no registered PRIMARY location does not make the token unavailable", witness=g.describe(w or []))
+               message=f"a path with no registered PRIMARY location does not make the token unavailable{cvia}", witness=cg.describe(w or []))
     # (c) no location passes _is_path_available
-    # the check of the locations: written in is_available itself, or - `extract function` - in a helper of the module that
-    # is_available calls (one level): (call of is_available standing for the check, function holding the
+    # the check of the locations: written in the function holding the per-path check, or - `extract function` - in a helper
+    # of the module that it calls (one level): (call standing for the check, function holding the
     # `_is_path_available` call, that call, binding parameter -> argument)
     chk_target = [f"{TOK}._is_path_available"]
-    chk = [(c, f, c, None) for c in f.calls() if resolves_to(p, f, c, chk_target, attr_fallback=False)] or _extracted_sites(p, f, chk_target)
+    chk = [(c, cf, c, None) for c in cf.calls() if resolves_to(p, cf, c, chk_target, attr_fallback=False)] or _extracted_sites(p, cf, chk_target)
     ctx.require(len(chk) == 1, "C18.R2: expected one _is_path_available call in FileToken.is_available (directly or in one helper of its module)")
     hc, sf, ck, hb = chk[0]
-    via = "" if sf is f else f" (the locations are checked by the helper {sf.qualname}, invoked as `{unparse(hc)[:70]}`)"
-    if sf is not f:
-        ctx.observe(f"C18.R2: _is_path_available is called by the helper {sf.qualname}; its call `{unparse(hc)[:70]}` in FileToken.is_available is analysed as the location check")
+    via = cvia + ("" if sf is cf else f" (the locations are checked by the helper {sf.qualname}, invoked as `{unparse(hc)[:70]}`)")
+    if sf is not cf:
+        ctx.observe(f"C18.R2: _is_path_available is called by the helper {sf.qualname}; its call `{unparse(hc)[:70]}` in {cf.qualname} is analysed as the location check")
 
     def is_locs_sf(e):
-        if sf is f:
+        if sf is cf:
             return is_locs(e)
         # in the helper: a parameter bound to the data locations at the call site and never re-bound
         return isinstance(e, ast.Name) and e.id in hb and is_locs(hb[e.id]) and _fixed_param(sf, e.id)
@@ -470,26 +504,67 @@ def r2(ctx):
     comp = next((a for a in ancestors(ck) if isinstance(a, (ast.GeneratorExp, ast.ListComp, ast.SetComp))), None)
     over_all = comp is not None and len(comp.generators) == 1 and not comp.generators[0].ifs and is_locs_sf(comp.generators[0].iter) and isinstance(
         comp.generators[0].target, ast.Name) and any(isinstance(a, ast.Name) and a.id == comp.generators[0].target.id for a in ck.args)
-    awaited = any(isinstance(a, ast.Await) for a in ancestors(ck)) and (sf is f or (sf.is_async and is_awaited(hc)))
+    awaited = any(isinstance(a, ast.Await) for a in ancestors(ck)) and (sf is cf or (sf.is_async and is_awaited(hc))) and (cf is f or (cf.is_async and is_awaited(lcall)))
     ctx.ob("R2", "availability = any(_is_path_available(loc) for every PRIMARY location)", is_any and over_all and awaited, func=f, node=hc, instance="file:any-location",
            message=f"aggregate is builtin any={is_any}, over all locations without filter={over_all}, awaited={awaited}{via}")
-    # the expression of is_available that carries the aggregate: the aggregate itself, or the call of the helper whose
-    # every return yields it (temporaries followed)
-    agg_f = agg
-    if sf is not f and agg is not None:
+    # the expression of the function holding the per-path check that carries the aggregate: the aggregate itself, or the
+    # call of the helper whose every return yields it (temporaries followed)
+    agg_c = agg
+    if sf is not cf and agg is not None:
         hrets = [r for r in sf.body_nodes() if isinstance(r, ast.Return)]
-        agg_f = hc if hrets and all(r.value is not None and [strip(v) for v in returned_exprs(sf, r)] == [agg] for r in hrets) else None
-    if agg_f is not None:
-        tn = [n for n in g.nodes.values() if n.kind == "test" and any(x is agg_f for x in n.walk())]
+        agg_c = hc if hrets and all(r.value is not None and [strip(v) for v in returned_exprs(sf, r)] == [agg] for r in hrets) else None
+
+    def lost_test(fn, carrier):
+        """(test node of `fn` on `carrier` - directly or through a local -, its outcome meaning `no location holds the path`)"""
+        gg = fn.cfg
+        tn = [n for n in gg.nodes.values() if n.kind == "test" and any(x is carrier for x in n.walk())]
         if not tn:
             # result stored in a local first
-            tn = [n for n in g.nodes.values() if n.kind == "test" and mentions(f, n.ast, lambda x: x is agg_f, depth=1)]
+            tn = [n for n in gg.nodes.values() if n.kind == "test" and mentions(fn, n.ast, lambda x: x is carrier, depth=1)]
+        if len(tn) != 1:
+            return tn, None
+        neg = branch_edges(gg, tn[0], lambda x, v: v is False and (x is carrier or (isinstance(x, ast.Name) and any(
+            d.value is not None and strip(d.value) is carrier for d in defs_of(fn, x.id)))))
+        ctx.require(len(neg) == 1, "C18.R2: cannot tell which outcome means `no location holds the path`")
+        return tn, neg[0]
+
+    agg_f = agg_c  # the expression of is_available itself whose falsity means `this path is lost`
+    if cf is not f and agg_c is not None:
+        # the helper performs the whole check of one path: its result is truthy only when the aggregate is - every return
+        # yields constant False, the aggregate itself (temporaries followed), or True on the positive outcome of the
+        # (single) test of the aggregate, whose negative outcome only returns False
+        tn, neg = lost_test(cf, agg_c)
+        ctx.require(len(tn) <= 1, f"C18.R2: the result of the location check is tested more than once in {cf.qualname}")
+        bad, wit = None, []
+        if tn:
+            w = _only_false(cg, succ(cg, tn[0].id, neg))
+            if w is not None:
+                bad, wit = "a path that no location holds does not make the helper return False", cg.describe(w)
+        yields_agg = False
+        for r in [n for n in cg.nodes.values() if n.kind == "return"]:
+            vals = [strip(v) for v in returned_exprs(cf, r.ast)] if r.ast.value is not None else [None]
+            for v in vals:
+                if isinstance(v, ast.Constant) and v.value is False:
+                    continue
+                if v is agg_c:
+                    yields_agg = True
+                    continue
+                pos_only = bool(tn) and isinstance(v, ast.Constant) and v.value is True and cg.dominates(tn[0].id, r.id) and r.id not in region(cg, tn[0].id, neg)
+                if not pos_only:
+                    bad = bad or f"`{unparse(r.ast)}` does not yield the result of the location check"
+        if not tn and not yields_agg:
+            bad = bad or "the result of the location check is neither tested nor returned"
+        live = cg.reach([cg.entry], kinds=NORMAL, include_src=True)
+        if any(cg.nodes[i].kind != "return" and any(b_ == cg.exit and k_ in NORMAL for b_, k_ in cg.succ[i]) for i in live):
+            bad = bad or "the helper can end without returning the outcome"
+        ctx.ob("R2", "the helper checking one path returns the outcome of the location check", bad is None, func=f, node=lcall, instance="file:lost:helper",
+               message=f"{cf.qualname}: {bad}: a path that no location holds any more can be reported available and lost data is not regenerated", witness=wit)
+        agg_f = lcall
+    if agg_f is not None:
+        tn, neg = lost_test(f, agg_f)
         ctx.require(len(tn) == 1, "C18.R2: the result of the location check is not tested")
         n = tn[0]
-        neg = branch_edges(g, n, lambda x, v: v is False and (x is agg_f or (isinstance(x, ast.Name) and any(
-            d.value is not None and strip(d.value) is agg_f for d in defs_of(f, x.id)))))
-        ctx.require(len(neg) == 1, "C18.R2: cannot tell which outcome means `no location holds the path`")
-        w = _only_false(g, succ(g, n.id, neg[0]))
+        w = _only_false(g, succ(g, n.id, neg))
         ctx.ob("R2", "a path that exists on none of its locations makes the token unavailable", w is None, func=f, node=n.ast, instance="file:lost",
                message=f"a path that no location holds any more does not make the token unavailable: lost data is not regenerated{via}", witness=g.describe(w or []))
     else:
@@ -733,6 +808,11 @@ def r4(ctx):
         for _c, h, _x, _b in _extracted_sites(p, p.func(q), tg):
             if h.qualname not in names:
                 names.append(h.qualname)
+    # ... and the helper holding the look-up of the locations (possibly the whole per-path check, with its own helper)
+    for _c, h, _x, _b in _extracted_sites(p, p.func(f"{TOK}.FileToken.is_available"), [], pred=lambda c: isinstance(c.func, ast.Attribute) and c.func.attr == "get_data_locations"):
+        for h2 in [h, *[x[1] for x in _extracted_sites(p, h, [f"{TOK}._is_path_available"])]]:
+            if h2.qualname not in names:
+                names.append(h2.qualname)
     check_awaited(ctx, "R4", names)
     check_defined(ctx, "R4", names, classes=[f"{UTILS}.ProvenanceGraph", f"{UTILS}.GraphMapper"])
 
@@ -1234,6 +1314,36 @@ _ANY_HELPER = """
 async def _is_any_path_available(context: StreamFlowContext, data_locations) -> bool:
     return any(await asyncio.gather(*(asyncio.create_task(_is_path_available(context, data_loc)) for data_loc in data_locations)))
 """
+# ---- refactoring B18-2: the whole check of one path extracted into a module-level coroutine
+_PATH_OLD = ("            if len((data_locations := context.data_manager.get_data_locations(path, data_type=DataType.PRIMARY))) == 0:\n"
+             "                return False\n"
+             "            elif not any(await asyncio.gather(*(asyncio.create_task(_is_path_available(context, data_loc)) for data_loc in data_locations))):\n"
+             "                return False\n")
+_PATH_NEW = "            if not await _is_path_available_somewhere(context, path):\n                return False\n"
+_PATH_HELPER = """
+async def _is_path_available_somewhere(context: StreamFlowContext, path: str) -> bool:
+    data_locations = context.data_manager.get_data_locations(path, data_type=DataType.PRIMARY)
+    if len(data_locations) == 0:
+        return False
+    return any(await asyncio.gather(*(asyncio.create_task(_is_path_available(context, data_loc)) for data_loc in data_locations)))
+"""
+_PATH_HELPER_TESTED = """
+async def _is_path_available_somewhere(context: StreamFlowContext, path: str) -> bool:
+    data_locations = context.data_manager.get_data_locations(path, data_type=DataType.PRIMARY)
+    if not data_locations:
+        return False
+    found = any(await asyncio.gather(*(asyncio.create_task(_is_path_available(context, data_loc)) for data_loc in data_locations)))
+    if not found:
+        return False
+    return True
+"""
+_LOCS_OLD = "len((data_locations := context.data_manager.get_data_locations(path, data_type=DataType.PRIMARY))) == 0:"
+_LOCS_NEW = "len((data_locations := _primary_locations(context, path))) == 0:"
+_LOCS_HELPER = """
+def _primary_locations(context: StreamFlowContext, path: str):
+    locations = context.data_manager.get_data_locations(path, data_type=DataType.PRIMARY)
+    return locations
+"""
 _CLOOP_OLD = ("        for port_row in await asyncio.gather(*(asyncio.create_task(self.context.database.get_port(row_dependency['port'])) for row_dependency in dependency_rows)):\n"
               "            if port_row['name'] not in self.port_tokens.keys():\n                step_to_remove.add(step_id)\n")
 
@@ -1391,6 +1501,33 @@ VARIANTS = [
     V("extracted location check receives other locations", TOKEN_FILE, _FA, _ANY_OLD, _ANY_NEW.replace("data_locations)", "[])"), "R2", append=_ANY_HELPER),
     V("extracted location check: outcome inverted at the call site", TOKEN_FILE, _FA, _ANY_OLD, _ANY_NEW.replace("elif not await", "elif await"), "R2", append=_ANY_HELPER),
     V("extracted location check not awaited", TOKEN_FILE, _FA, _ANY_OLD, _ANY_NEW.replace("not await _is", "not _is"), "R2", append=_ANY_HELPER),
+    # ---- refactoring B18-2: the check of one path (look-up, emptiness test, aggregate) extracted into a module-level coroutine
+    V("per-path check extracted into a helper coroutine", TOKEN_FILE, _FA, _PATH_OLD, _PATH_NEW, None, append=_PATH_HELPER),
+    V("per-path check extracted, outcome tested in the helper and through a temporary at the call site", TOKEN_FILE, _FA, _PATH_OLD,
+      "            here = await _is_path_available_somewhere(context, path)\n            if not here:\n                return False\n", None, append=_PATH_HELPER_TESTED),
+    V("per-path check extracted, aggregate in a helper of the helper", TOKEN_FILE, _FA, _PATH_OLD, _PATH_NEW, None,
+      append=_ANY_HELPER + _PATH_HELPER.replace("    return any(await asyncio.gather(*(asyncio.create_task(_is_path_available(context, data_loc)) for data_loc in data_locations)))",
+                                                "    return await _is_any_path_available(context, data_locations)")),
+    V("extracted per-path check: no location counts as available", TOKEN_FILE, _FA, _PATH_OLD, _PATH_NEW, "R2",
+      append=_PATH_HELPER.replace("== 0:\n        return False", "== 0:\n        return True")),
+    V("extracted per-path check demands all locations", TOKEN_FILE, _FA, _PATH_OLD, _PATH_NEW, "R2", append=_PATH_HELPER.replace("return any(", "return all(")),
+    V("extracted per-path check looks up any data type", TOKEN_FILE, _FA, _PATH_OLD, _PATH_NEW, "R2", append=_PATH_HELPER.replace(", data_type=DataType.PRIMARY", "")),
+    V("extracted per-path check returns the negated aggregate", TOKEN_FILE, _FA, _PATH_OLD, _PATH_NEW, "R2", append=_PATH_HELPER.replace("return any(", "return not any(")),
+    V("extracted per-path check ignores the aggregate", TOKEN_FILE, _FA, _PATH_OLD, _PATH_NEW, "R2",
+      append=_PATH_HELPER_TESTED.replace("    if not found:\n        return False\n", "    if not found:\n        logger.debug('lost')\n")),
+    V("extracted per-path check: lost path reported as found", TOKEN_FILE, _FA, _PATH_OLD, _PATH_NEW, "R2",
+      append=_PATH_HELPER_TESTED.replace("    if not found:\n        return False\n", "    if not found:\n        return True\n")),
+    V("extracted per-path check: outcome inverted at the call site", TOKEN_FILE, _FA, _PATH_OLD, _PATH_NEW.replace("if not await", "if await"), "R2", append=_PATH_HELPER),
+    V("extracted per-path check: lost path ignored at the call site", TOKEN_FILE, _FA, _PATH_OLD, _PATH_NEW.replace("return False", "continue"), "R2", append=_PATH_HELPER),
+    V("extracted per-path check receives another path", TOKEN_FILE, _FA, _PATH_OLD, _PATH_NEW.replace("(context, path)", "(context, self.value['path'])"), "R2", append=_PATH_HELPER),
+    V("extracted per-path check re-binds the path before the look-up", TOKEN_FILE, _FA, _PATH_OLD, _PATH_NEW, "R2",
+      append=_PATH_HELPER.replace("    data_locations = context", "    path = os.path.dirname(path)\n    data_locations = context")),
+    V("extracted per-path check not awaited", TOKEN_FILE, _FA, _PATH_OLD, _PATH_NEW.replace("not await _is", "not _is"), "R2", append=_PATH_HELPER),
+    V("look-up of the locations extracted into a helper function", TOKEN_FILE, _FA, _LOCS_OLD, _LOCS_NEW, None, append=_LOCS_HELPER),
+    V("extracted look-up returns the locations of any data type", TOKEN_FILE, _FA, _LOCS_OLD, _LOCS_NEW, "R2", append=_LOCS_HELPER.replace(", data_type=DataType.PRIMARY", "")),
+    V("extracted look-up: aggregate over other locations", TOKEN_FILE, _FA, _LOCS_OLD + "\n                return False\n            elif not any(await asyncio.gather(*(asyncio.create_task(_is_path_available(context, data_loc)) for data_loc in data_locations))):",
+      _LOCS_NEW + "\n                return False\n            elif not any(await asyncio.gather(*(asyncio.create_task(_is_path_available(context, data_loc)) for data_loc in data_locations[:1]))):", "R2",
+      append=_LOCS_HELPER),
     # producer loop extracted into a helper (B8-5) / collected with any(...) over a temporary (B8-6)
     V("producer loop extracted into a helper function", UTILS_FILE, _BG, _PLOOP, "            _link_producers(self, token, prev_tokens, token_frontier)\n", None,
       append=_LINK_HELPER),
